@@ -320,6 +320,30 @@ def unit_large_batch(ctx, schemes):
     ctx.cls("large_batch_units")
 
 
+def unit_cross_instance(ctx):
+    """Two different codes of the same encoder class and the same (n, k) get their decoders in ONE process, used alternately in both orders:
+    tables shared between decoder instances (keyed by class and size instead of by code) would hand one code the other's codebook."""
+    groups = [
+        ([{"family": "cyclic", "n": 7, "g": 0b1011, "info": "left"}, {"family": "cyclic", "n": 7, "g": 0b1101, "info": "left"}], ["ml", "syndrome"]),
+        ([{"family": "generic", "G": [[1, 1, 0, 1, 0, 0], [0, 1, 1, 0, 1, 0], [1, 0, 1, 0, 0, 1]]}, {"family": "generic", "G": [[1, 1, 1, 0, 0, 0], [0, 0, 1, 1, 1, 0], [1, 0, 0, 0, 1, 1]]}], ["ml", "syndrome", "bp"]),
+        ([{"family": "systematic", "P": [[1, 1, 0], [0, 1, 1], [1, 0, 1], [1, 1, 1]], "info": "left"}, {"family": "systematic", "P": [[1, 0, 1], [1, 1, 1], [0, 1, 1], [1, 1, 0]], "info": "left"},
+          {"family": "systematic", "P": [[1, 1, 0], [0, 1, 1], [1, 0, 1], [1, 1, 1]], "info": "right"}], ["ml", "syndrome", "bp", "minsum"]),
+        ([{"family": "hamming", "mu": 3, "extended": False, "info": "left"}, {"family": "hamming", "mu": 3, "extended": False, "info": "right"}], ["ml", "syndrome", "bp"]),
+        ([{"family": "bch", "mu": 4, "delta": 5, "info": "left"}, {"family": "bch", "mu": 4, "delta": 5, "info": "right"}], ["bm", "syndrome"]),
+    ]
+    bpsk = next(s for s in mc.all_schemes() if s["scheme"] == "bpsk")
+    qam = next(s for s in mc.all_schemes() if s["scheme"] == "qam" and s.get("order") == 16)
+    for specs, decs in groups:
+        for order_name, seq in (("forward", specs), ("reverse", specs[::-1]), ("forward_again", specs)):
+            for spec in seq:
+                for dname in decs:
+                    for s in (bpsk, qam):
+                        for chan in (("perfect",) if dname in SOFT else ("perfect", "flips")):
+                            check_pair(ctx, {"code": cell_code(spec)["family"], "decoder": dname, "scheme": s["scheme"], "channel": chan, "mode": "cross_instance"},
+                                       {"spec": spec, "decoder": dname, "scheme": s, "channel": chan, "seed": ctx.seed + 5, "n_msg": 16})
+    ctx.cls("cross_instance_groups", len(groups))
+
+
 def units(tier, seed):
     codes = code_list(tier)
     mods = mod_list(tier)
@@ -331,6 +355,7 @@ def units(tier, seed):
         us.append(Unit(f"code_{i:02d}_{entry[0]['family']}_fast", "c09:unit_codes", {"entries": [entry], "schemes": fast}, w))
         us.append(Unit(f"code_{i:02d}_{entry[0]['family']}_psk", "c09:unit_codes", {"entries": [entry], "schemes": slow}, w))
     us.append(Unit("reuse", "c09:unit_reuse", {}, 12))
+    us.append(Unit("cross_instance", "c09:unit_cross_instance", {}, 10))
     big = [s for s in mods if s.get("order", 4) <= 64]
     for i in range(0, len(big), 8):
         us.append(Unit(f"large_batch_{i // 8:02d}", "c09:unit_large_batch", {"schemes": big[i:i + 8]}, 6))
